@@ -30,6 +30,8 @@ static void hexs(const char *s)
     vf_print_hex(stdout, (const unsigned char *)s, strlen(s));
 }
 
+static int cmpstr(const void *a, const void *b) { return strcmp(*(char *const *)a, *(char *const *)b); }
+
 static void dump_rules(jsgf_t *jsgf, const char *tag)
 {
     hash_iter_t *it;
@@ -116,6 +118,34 @@ int main(void)
             hexs(jsgf->name);
             printf("\n");
             dump_rules(jsgf, "parsed");
+            if (!strcmp(tops, "*")) {
+                /* every user rule (not <grammar.gNNNNN>) of the table, sorted by name, at most 6 */
+                char *names[4096];
+                int nn = 0, i;
+                hash_iter_t *it;
+                for (it = hash_table_iter(jsgf->rules); it; it = hash_table_iter_next(it)) {
+                    jsgf_rule_t *r = (jsgf_rule_t *)hash_entry_val(it->ent);
+                    size_t l = strlen(r->name);
+                    int internal = l >= 9 && r->name[l - 1] == '>' && r->name[l - 7] == 'g' && r->name[l - 8] == '.';
+                    for (i = 2; internal && i <= 6; i++)
+                        if (r->name[l - i] < '0' || r->name[l - i] > '9') internal = 0;
+                    if (!internal && nn < 4096) names[nn++] = strdup(r->name);
+                }
+                qsort(names, nn, sizeof(char *), cmpstr);
+                for (i = 0; i < nn; i++) {
+                    void *val;
+                    if (i < 6 && hash_table_lookup(jsgf->rules, names[i], &val) == 0) {
+                        char *hx = (char *)malloc(strlen(names[i]) * 2 + 2);
+                        size_t k;
+                        for (k = 0; names[i][k]; k++) sprintf(hx + 2 * k, "%02x", (unsigned char)names[i][k]);
+                        build(jsgf, (jsgf_rule_t *)val, hx, lm, 0);
+                        build(jsgf, (jsgf_rule_t *)val, hx, lm, 1);
+                        free(hx);
+                    }
+                    free(names[i]);
+                }
+                tops = NULL;
+            }
             while (tops && *tops && strcmp(tops, "-")) {
                 char *comma = strchr(tops, ',');
                 char *name;
